@@ -289,12 +289,27 @@ def successful_programs(pp, vidx, depth, voc=None):
 def prefix_states(pp, vidx, program):
     """state_i = every object just before step i (i = 0..n), from prefix bakes only (never from step.frm/to).
     Objects not yet declared are the pristine ones; objects not yet created are absent."""
+    import json
     names = expected_names(program)
+    outside = [n for n in names if n in SPEC]
     states = []
     for i in range(len(program) + 1):
+        # prefix bakes are shared by all programs with that prefix; a cached state is re-used only if its exact
+        # fingerprint is unchanged (values are supposed to be immutable, but that is C04's claim, not an assumption here)
+        key = (vidx, json.dumps(program[:i], sort_keys=True), tuple(sorted(outside)))
+        hit = _PREFIX_CACHE.get(key)
+        if hit is not None and e1.exact_world(hit[0]) == hit[1]:
+            states.append(dict(hit[0]))
+            continue
         b = bake(pp, vidx, program[:i])
         if not b['ok']:
             raise env.InternalError(f"prefix of a successful program failed to bake: {b['exc']!r}")
-        _, w = world_after(pp, vidx, b['results'], [n for n in names if n in SPEC])
-        states.append(w)
+        _, w = world_after(pp, vidx, b['results'], outside)
+        if len(_PREFIX_CACHE) > 4000:
+            _PREFIX_CACHE.clear()
+        _PREFIX_CACHE[key] = (w, e1.exact_world(w))
+        states.append(dict(w))
     return states
+
+
+_PREFIX_CACHE = {}
